@@ -71,6 +71,16 @@ def any_ok(pin):
     return all(c.isascii() and c.isalnum() for c in pin)
 
 
+def several_refused(rng, pin, anyp):
+    """what an operator types before giving in: the refused PIN and up to four more that
+    the policy in force refuses too (a prompt that gives up after n attempts must not let
+    the last one through)"""
+    pool = ["abc-1234", "abcd 123", "!!!!!!!!", "abcd\u00e9123"] if anyp else \
+        ["1234", "12345678", "abc-1234", "abcd12345", "ABCDEFG"]
+    k = rng.choice([0, 0, 1, 2, 3, 4])
+    return [pin] + [rng.choice(pool) for _ in range(k)]
+
+
 def answered_yes(script):
     """what an operator typing these lines has said: first decisive line wins"""
     for ln in script.split("\n")[:-1] if script.endswith("\n") else script.split("\n"):
@@ -187,7 +197,7 @@ def run_cell(acc, cell, tmpdir, seed):
             # the PIN that was set again when asked to unlock
             acceptable = (any_ok(pin) if anyp else strict_ok(pin))
             getpass_answers = [pin, pin, pin] if acceptable else \
-                [pin, "abcd1234", "abcd1234", "abcd1234"]
+                several_refused(rng, pin, anyp) + ["abcd1234", "abcd1234", "abcd1234"]
         fn = do_onboard
     elif cmd == "unlock":
         opts = options(pin=pin if src == "option" else None, any_pin=anyp, no_exec=flag)
@@ -199,7 +209,9 @@ def run_cell(acc, cell, tmpdir, seed):
         opts = options(pin="abcd1234", new_pin=pin if src == "option" else None, any_pin=anyp,
                        no_unlock=flag)
         if src == "prompt":
-            getpass_answers = [pin, "Zz345678"]
+            acceptable = (any_ok(pin) if anyp else strict_ok(pin))
+            getpass_answers = [pin, "Zz345678"] if acceptable else \
+                several_refused(rng, pin, anyp) + ["Zz345678"]
         fn = do_changepin
     else:
         opts = options(pin="abcd1234", no_unlock=flag, output_file_path=pkout)
